@@ -205,7 +205,7 @@ pub fn run(ctx: &Ctx, rep: &mut Report) {
                         "one" => 1,
                         "balance" => have,
                         "balance+1" => have + 1,
-                        _ => 1 + rng.below(have.max(1) as u64 + 2) as i128,
+                        _ => 1 + rng.below(have.clamp(1, 1 << 62) as u64 + 2) as i128,
                     };
                     // sometimes the gas is paid in the very token that is being transferred
                     let gas_same = scripted.is_none() && !t.probe && rng.chance(1, 6);
@@ -549,7 +549,7 @@ pub fn run(ctx: &Ctx, rep: &mut Report) {
                         continue;
                     }
                     let have = w.model.balance(&t.addr, &user);
-                    let amount = if have > 0 { 1 + rng.below(have as u64) as i128 } else { 1 };
+                    let amount = if have > 0 { 1 + rng.below(have.min(1 << 62) as u64) as i128 } else { 1 };
                     let (ta, us) = (t.addr.clone(), user.clone());
                     let o = w.u.call(Auth::Only(vec![user.clone()]), &move |env: &Env| flat(InterchainTokenClient::new(env, &ta).try_burn(&us, &amount)));
                     rep.count("op:direct-burn");
